@@ -1,7 +1,7 @@
 #!/bin/bash
 # usage: confirm_neutral.sh <Nid> <k>  -- re-run the agent's equivalence battery: clean tree vs tree with the refactoring
 P=$1; K=$2
-SRC=/tmp/neu/$P.out/$K
+SRC=${NEUDIR:-/tmp/neu}/$P.out/$K
 WT=/tmp/seedchk/nwt_${P}_$K
 OUT=/tmp/seedchk/neutral_${P}_$K.json
 export OMP_NUM_THREADS=1 MKL_NUM_THREADS=1
